@@ -5,10 +5,10 @@
    insertion orders per map, prints it with the real repr (single-line and pretty), evaluates the
    texts with the real Evaler and hands {v, texts, read-back values} to JudgeRepr.
 
-   Families (one TLC process each; quick runs F0-F4, thorough adds F5/F6):
+   Families (one TLC process each):
      F0  every atom
-     F1  lists of length <= 2 over all atoms
-     F2  one-entry maps, key and value over all atoms
+     F1  lists of length <= 2 over all atoms (quick: one of the two elements from Small)
+     F2  one-entry maps, key and value over all atoms (quick: one of the two from Small)
      F3  two-entry maps: every unordered pair of (unrelated) atoms as keys, both assignments of
          two distinct values  -- every pair of atoms meets the entry sort
      F4  depth 2, width <= 2: lists and maps over the cross-section Sub (atoms and containers,
@@ -17,7 +17,8 @@
      F6  two-entry maps whose keys are one-element lists / one-entry maps over all atoms paired with
          the same container of exact zero (nested ties and nested sort keys)                      *)
 EXTENDS Repr, TLC, Json
-CONSTANT Fam       \* which family this TLC process enumerates (the executor runs them in parallel)
+CONSTANT Fam,      \* which family this TLC process enumerates (the executor runs them in parallel)
+         Wide      \* TRUE (thorough): F1, F2, F4 are full products; FALSE (quick): one side from Small
 VARIABLE v
 
 Atoms == {Nil, Bool("true"), Bool("false")} \cup {Str(s) : s \in StrAtoms} \cup {Num(n) : n \in NumAtoms}
@@ -30,14 +31,17 @@ Maps2(K, V) == {{}} \cup {{<<k, w>>} : k \in K, w \in V}
                \cup {{<<kk[1], vv[1]>>, <<kk[2], vv[2]>>} : kk \in KeyPairs(K), vv \in V \X V}
 
 F0 == Atoms
-F1 == {List(s) : s \in Seqs2(Atoms)}
-F2 == {Map({<<k, w>>}) : k \in Atoms, w \in Atoms}
+Small == {Str("s:bare"), Str("s:nl"), Num("f:-0.0"), Nil}
+Prod == IF Wide THEN Atoms \X Atoms ELSE (Atoms \X Small) \cup (Small \X Atoms)
+F1 == {List(<<>>)} \cup {List(<<a>>) : a \in Atoms} \cup {List(<<p[1], p[2]>>) : p \in Prod}
+F2 == {Map({<<p[1], p[2]>>}) : p \in Prod}
 F3 == {Map({<<kk[1], X>>, <<kk[2], Y>>}) : kk \in KeyPairs(Atoms)}
 Sub == {Nil, Str("s:tab"), Str("s:nl"), Num("i:0"), Num("f:+0.0"), Num("f:NaN"),
         List(<<>>), Map({}), List(<<Num("i:0")>>), List(<<Num("f:+0.0")>>), List(<<Str("s:nl"), Str("s:tab")>>),
         Map({<<Num("i:0"), Str("s:tab")>>}), Map({<<Num("f:+0.0"), Str("s:tab")>>}),
         Map({<<Num("i:0"), X>>, <<Num("f:+0.0"), Y>>}), Map({<<Str("s:nl"), List(<<Str("s:tab")>>)>>})}
-SubV == {Str("s:tab"), Num("f:NaN"), List(<<Num("f:+0.0")>>), Map({<<Num("i:0"), X>>, <<Num("f:+0.0"), Y>>})}
+SubV == IF Wide THEN {Str("s:tab"), Num("f:NaN"), List(<<Num("f:+0.0")>>), Map({<<Num("i:0"), X>>, <<Num("f:+0.0"), Y>>})}
+        ELSE {Str("s:tab"), Map({<<Num("i:0"), X>>, <<Num("f:+0.0"), Y>>})}
 F4 == {List(s) : s \in Seqs2(Sub)} \cup {Map(m) : m \in Maps2(Sub, SubV)}
 K5 == {Num("i:0"), Num("f:+0.0"), Num("f:-0.0"), Num("i:1"), Num("f:1.0"), Num("f:NaN"), Str("s:numlike"), Nil, List(<<Num("i:0")>>)}
 F5 == {Map({<<a, X>>, <<b, Y>>, <<c, Nil>>}) : <<a, b, c>> \in {t \in K5 \X K5 \X K5 : ~RT(t[1], t[2]) /\ ~RT(t[1], t[3]) /\ ~RT(t[2], t[3])}}
